@@ -252,6 +252,8 @@ def gen(rs: int, tier: str, index: int) -> dict:
         m["attempts"] = atts
         if use_retry:
             m["labels"] = {"retry_on_error": ["bool", True]}
+    from ._wcommon import maybe_cli_entry
+    maybe_cli_entry(s, index, 7, 3)
     return s
 
 
